@@ -173,7 +173,15 @@ impl Resolver {
         // A base unit's long name comes into being with the base unit, so
         // what refers to `meter` depends on the definition `m !meter`.
         if let Some(base_unit) = self.long_names.get(id).cloned() {
-            return self.visit(&base_unit);
+            // `x !x` names the base unit itself: there is nothing to go to.
+            if base_unit != *id {
+                self.visit(&base_unit);
+                // A definition of its own under the long name is a
+                // duplicate, which is reported where it is read; the
+                // name has nothing left to resolve.
+                self.unmarked.remove(id);
+                return;
+            }
         }
         if self.temp_marks.get(id).is_some() {
             self.errors
